@@ -50,6 +50,10 @@ def expr_cases(tier):
         for op in ce.BINOPS:
             for a, b in itertools.product(g, repeat=2):
                 yield (f"{ce.spell(a)} {op} {ce.spell(b)}", ce.binary(op, a, b))
+    # the operator C++ does not have: rejected, or embedded with its ECMAScript value
+    for a, b in itertools.product(groups[0], repeat=2):
+        yield (f"{ce.spell(a)} >>> {ce.spell(b)}", ce.binary(">>>", a, b))
+        yield (f"(-{ce.spell(a)}) >>> {ce.spell(b)}", ce.binary(">>>", ce.unary("-", a), b))
     # depth 2 on a reduced set
     small = [ce.lit(v) for v in (INTS_SMALL if tier == "thorough" else INTS_SMALL[:5])]
     ops2 = ce.BINOPS if tier == "thorough" else ["+", "-", "*", "/", "%", "<<", ">>", "&", "<"]
@@ -454,14 +458,20 @@ def run_flags(t, vd):
         v = uiread.prop(uiread.parse(g["ui"]).find("widget"), "textFormat").children[0]
         if v.tag != "enum" or v.text != want:
             t.violation("value:enum", {"expr": expr, "observed": v.text, "source": src})
-    for expr, want in [("VObj.M1", "VObj::M1"), ("VObj.Scoped.S1", "VObj::Scoped::S1")]:
-        prop = "e" if "M1" in expr else None
-        if prop is None:
-            continue
-        src = f"import qmluic.QtWidgets\nVObj {{ e: {expr} }}\n"
+    for expr, want, prop in [("VObj.M1", "VObj::M1", "e"), ("VObj.M0", "VObj::M0", "e"), ("VObj.N1", "VObj::N1", "e2"),
+                             ("VObj.Scoped.S1", "VObj::Scoped::S1", "sc"), ("VObj.Scoped.S0", "VObj::Scoped::S0", "sc"),
+                             ("VSub.Scoped.S1", "VObj::Scoped::S1", "sc"), ("VSub.M1", "VObj::M1", "e")]:
+        src = f"import qmluic.QtWidgets\nVObj {{ {prop}: {expr} }}\n"
         g = vd.job({"id": "enum", "source": src, "modes": ["generate"]})["modes"]["generate"]
         t.inc("expressions")
-        v = uiread.prop(uiread.parse(g["ui"]).find("widget"), "e").children[0]
+        if not vc.accepted(g, False):
+            # spelling an enumerator through a derived class is not promised by the documentation: only counted
+            if expr.startswith("VSub."):
+                t.inc("enum-through-derived-class-rejected")
+                continue
+            t.violation("value:enum-rejected", {"expr": expr, "source": src, "diagnostics": g.get("diagnostics")})
+            continue
+        v = uiread.prop(uiread.parse(g["ui"]).find("widget"), prop).children[0]
         if v.tag != "enum" or v.text != want:
             t.violation("value:enum", {"expr": expr, "observed": v.text, "source": src})
 
